@@ -343,35 +343,39 @@ theorem mu_le_sum (l : S) (secs : List S) (doc : Nat) :
   simp only [map_cons, sum_cons]
   omega
 
-/-- `block_wand_intersection` (mirrored) COMPLETES and is right: on at least two fresh scorers
-(skip readers on their first block) and with a fuel of `Σ blocks + 2` iterations the loop ends with
-`.ok`, in the state of the exhaustive loop -/
+/-- `block_wand_intersection` (mirrored) COMPLETES — no bound hypothesis, any callback: on at least
+two fresh scorers with ascending postings and a fuel of `Σ blocks + 2` iterations -/
+theorem blockWandInter_completes {σ : Type} (cb : σ → Nat → Nat → σ × Nat) (fuel : Nat) (s : σ) (θ : Nat)
+    (scorers : List S) (hasc : ∀ x, x ∈ scorers → Asc x.rest) (hfresh : ∀ x, x ∈ scorers → x.skip = 0)
+    (hlen : 2 ≤ scorers.length) (hfuel : (scorers.map (·.blocks.length)).sum + 2 ≤ fuel) :
+    ∃ out, blockWandInter cb fuel (s, θ) scorers = .ok out := by
+  unfold blockWandInter
+  have hperm := sortByCost_perm scorers
+  have hl := hperm.length_eq
+  split
+  · rename_i hnil; rw [hnil] at hl; simp at hl; omega
+  · rename_i hone; rw [hone] at hl; simp at hl; omega
+  · rename_i l secs _ hsort
+    dsimp only
+    split
+    · exact ⟨_, rfl⟩
+    · have hmem : ∀ x, x ∈ l :: secs → x ∈ scorers := fun x hx => hperm.subset (by rw [hsort]; exact hx)
+      apply interLoop_completes cb _ fuel s θ l secs l.doc (hasc l (hmem l (by simp)))
+      · rw [hfresh l (hmem l (by simp))]; exact Nat.zero_le _
+      · intro x hx; rw [hfresh x (hmem x (by simp [hx]))]; exact Nat.zero_le _
+      · have h1 := mu_le_sum l secs l.doc
+        have h2 := perm_sum_map hperm (fun x : S => x.blocks.length)
+        rw [hsort] at h2
+        split <;> omega
+
+/-- … and, given the bound hypotheses and a monotone callback, it is right -/
 theorem blockWandInter_total {σ : Type} {cb : σ → Nat → Nat → σ × Nat} {R : σ → Nat → Prop}
     (hcb : MonoCb cb R) (fuel : Nat) (s : σ) (θ : Nat) (hR : R s θ) (scorers : List S)
     (hwf : ∀ x, x ∈ scorers → WFI x) (hfresh : ∀ x, x ∈ scorers → x.skip = 0) (hlen : 2 ≤ scorers.length)
     (hfuel : (scorers.map (·.blocks.length)).sum + 2 ≤ fuel) :
     blockWandInter cb fuel (s, θ) scorers
       = .ok (exhRange cb (interTotal (posts scorers)) 0 T (s, θ)) := by
-  have hex : ∃ out, blockWandInter cb fuel (s, θ) scorers = .ok out := by
-    unfold blockWandInter
-    have hperm := sortByCost_perm scorers
-    have hl := hperm.length_eq
-    split
-    · rename_i hnil; rw [hnil] at hl; simp at hl; omega
-    · rename_i hone; rw [hone] at hl; simp at hl; omega
-    · rename_i l secs _ hsort
-      dsimp only
-      split
-      · exact ⟨_, rfl⟩
-      · have hmem : ∀ x, x ∈ l :: secs → x ∈ scorers := fun x hx => hperm.subset (by rw [hsort]; exact hx)
-        apply interLoop_completes cb _ fuel s θ l secs l.doc (hwf l (hmem l (by simp))).wf.asc
-        · rw [hfresh l (hmem l (by simp))]; exact Nat.zero_le _
-        · intro x hx; rw [hfresh x (hmem x (by simp [hx]))]; exact Nat.zero_le _
-        · have h1 := mu_le_sum l secs l.doc
-          have h2 := perm_sum_map hperm (fun x : S => x.blocks.length)
-          rw [hsort] at h2
-          split <;> omega
-  obtain ⟨out, hout⟩ := hex
+  obtain ⟨out, hout⟩ := blockWandInter_completes cb fuel s θ scorers (fun x hx => (hwf x hx).wf.asc) hfresh hlen hfuel
   rw [hout, blockWandInter_eq_exhaustive hcb fuel s θ hR scorers hwf out hout]
 
 end TantivyModel.BlockWand
